@@ -407,6 +407,14 @@ pub fn c09(tier: &str, seed: u64) -> Vec<Case> {
                     for _ in 0..extra { p.additional_records.push(g.rr_of(*r.pick(&[0usize, 1, 12, 13]))); }
                     if extra == 2 { p.answers.push(g.rr_of(0)); }
                     if extra % 2 == 1 { for _ in 0..1 + extra / 4 { p.name_servers.push(g.rr_of(*r.pick(&[2usize, 14, 0]))); } }
+                    // EDNS rides on ordinary messages: questions, any opcode and flags
+                    if (extra + ver as usize) % 2 == 1 {
+                        for _ in 0..r.below(3) { p.questions.push(g.question()); }
+                        *p.opcode_mut() = *r.pick(&Gen::OPCODES);
+                        let mut fl = PacketFlag::empty();
+                        for f in [PacketFlag::AUTHORITATIVE_ANSWER, PacketFlag::TRUNCATION, PacketFlag::RECURSION_DESIRED, PacketFlag::RECURSION_AVAILABLE, PacketFlag::AUTHENTIC_DATA, PacketFlag::CHECKING_DISABLED] { if r.chance(1, 3) { fl |= f; } }
+                        p.set_flags(fl);
+                    }
                     let ptxt = text::packet(&p);
                     // both writers: the plain one and, every other time, the compressing one
                     let comp = extra % 2 == 1 || r.chance(1, 3);
@@ -490,13 +498,20 @@ pub fn c09(tier: &str, seed: u64) -> Vec<Case> {
         *p.opt_mut() = Some(opt.clone());
         let k = r.below(4) as usize;
         for _ in 0..k { p.additional_records.push(g.rr_of(*r.pick(&[0usize, 1, 12, 16]))); }
+        if i % 2 == 1 {
+            for _ in 0..r.below(3) { p.questions.push(g.question()); }
+            for _ in 0..r.below(3) { p.answers.push(g.rr_of(*r.pick(&[0usize, 1, 12, 16]))); }
+            if r.chance(1, 3) { p.name_servers.push(g.rr_of(2)); }
+            *p.opcode_mut() = *r.pick(&Gen::OPCODES);
+        }
         let ptxt = text::packet(&p);
         let pos = r.below(k as u64 + 1) as usize;
         let rfc_layout = i % 3 == 0;
         let (mut b, _) = refenc::encode_packet(&ptxt, Compress::Never, rfc_layout, Some(pos));
         // the 16 flag bits of the OPT TTL (DO and the reserved ones) as other implementations set them: they are
         // not the library's to interpret and must not disturb version, response code or anything else
-        if i % 3 == 1 {
+        let mut rc = rc;
+        if i % 3 != 2 {
             if let Some(w) = walker::walk(&b) {
                 if let Some(e) = w.sections[2].iter().find(|e| e.typ == 41) {
                     let t = e.rd_start - 6;
@@ -504,6 +519,16 @@ pub fn c09(tier: &str, seed: u64) -> Vec<Case> {
                     let (hi, lo) = if rfc_layout { (t + 2, t + 3) } else { (t, t + 1) };
                     b[hi] |= *r.pick(&[0x80u8, 0x80, 0x40, 0xFF]);
                     if r.chance(1, 2) { b[lo] |= r.next() as u8; }
+                    // every value of the extended-RCODE octet with every low nibble in the header, not only those of the
+                    // named codes: the 12 bits are recombined as they are (an unassigned code reads as `Reserved`)
+                    if i % 2 == 1 {
+                        let ext_at = if rfc_layout { t } else { t + 3 };
+                        let any = r.next() as u8; let ext = *r.pick(&[0u8, 1, 2, 0x0F, 0x10, 0x11, 0x80, 0xFF, any]);
+                        let nib = r.below(16) as u8;
+                        b[ext_at] = ext;
+                        b[3] = (b[3] & 0xF0) | nib;
+                        rc = RCODE::from(((ext as u16) << 4) | nib as u16);
+                    }
                 }
             }
         }
